@@ -22,7 +22,12 @@ class HashTable:
         self.setHashSensitivity(4)
 
     def enableCaching(self, is_caching: bool):
-        self._cache = is_caching
+        '''
+        Switches the cache on or off
+        When off, nothing is stored and nothing is retrieved (stored values are kept
+        but ignored until caching is enabled again; use clearCache to drop them)
+        '''
+        self._cache = bool(is_caching)
 
     def clearCache(self):
         self.cachedData = {}
@@ -67,7 +72,7 @@ class HashTable:
         -------
         Value or None (if no hash table for cached value does not exist)
         '''
-        if self._cache is None:
+        if not self._cache:
             return None
         else:
             hash_value = self._hashingFunction(x, T)
@@ -83,7 +88,7 @@ class HashTable:
         x : float, list[float]
         T : float
         '''
-        if self._cache is not None:
+        if self._cache:
             hash_value = self._hashingFunction(x, T)
             self.cachedData[hash_value] = value
 
